@@ -118,6 +118,16 @@ def handleShape (toks : List String) : Option String :=
           if axis > 2 then return "ERR"
           return showShape (rotate S axis c sn)
       | _ => none
+  | ["refh", p, us, ps, kl, add, dens] => do
+      let p ← p.toNat?; let U ← parseList us; let P ← parsePts ps; let add ← parseList add; let dens ← dens.toNat?
+      let kl ← (if kl == "default" then some none else (parseList kl).map some)
+      if p = 0 || U.length != P.length + p + 1 || !isSortedB U || dens = 0 then return "ERR"
+      match kl with
+      | some l => if l.isEmpty && add.isEmpty then return "ERR" else pure ()
+      | none => pure ()
+      match knotRefinementOf p U P kl add dens tolMult with
+      | some (kv, cp) => return s!"{showList kv} {showPts cp}"
+      | none => return "ERR"
   | "split" :: rest => do
       let (S, rest) ← parseShape rest
       match rest with
